@@ -109,6 +109,11 @@ class RequireWalker(lua.BaseASTWalker):
                 use_game_loop = arg_exps[1].value.fields[0].exp.value
 
             yield (require_path, use_game_loop, self._tokens[node.start_pos])
+        else:
+            # Not a require() call itself, but its callee or arguments may
+            # contain one: print(require("lib"))
+            for t in super()._walk_FunctionCall(node):
+                yield t
 
 
 def _evaluate_require(ast, file_path, package_lua, lua_path=None):
